@@ -3,6 +3,8 @@
 import json, os, re, sys, glob
 
 DESC = {
+ "r3-C03a": ("C03", "PubRec.UnmarshalBinary returns early for frames shorter than 4 bytes (misreading of 3.5.2.1): the reason code of a length-3 PUBREC is not read", "a PUBREC of remaining length 3 with a non-zero reason code (50 03 00 09 97)"),
+ "r3-C03b": ("C03", "UserProp.UnmarshalBinary decodes key and value into one reused scratch string; with bindata's keep-on-empty an empty value decodes as the key and the cursor overshoots", "a user property with a non-empty key and an empty value"),
  "r2-C02": ("C02", "Connect.fill writes the password only inside the user-name branch", "a CONNECT with a password but no user name"),
  "r2-C04": ("C04", "Connect.UnmarshalBinary calls p.will.SetRetain when the will-retain flag is set without checking that the will flag created a will", "a CONNECT frame with the will-retain bit but no will flag (nil dereference)"),
  "r2-C05": ("C05", "ReadRemaining reads frames >= 4096 bytes into a sync.Pool buffer and hands the whole recycled buffer to UnmarshalBinary", "a large frame followed by a smaller (>= 4096 byte) frame ending in a repeated section"),
